@@ -23,6 +23,8 @@ RULE = ("bounded-exhaustive blocks (see exhaustive_blocks) + random label volume
         "integer dtype with labels at the dtype limits) with coordinate / time-point / label lists drawn inside, on the border, outside "
         "(-1, size, +-2^31, 2^53+-1, 2^63+-1, 2^64-1), dyadic scale vectors incl. 0 and negative, axes lists with max in {None, 0, on the "
         "extent, just inside/outside}, 0..2 time axes at any position, more/fewer axes than dimensions, list/coordinate length mismatches; "
+        "NaN / +inf / -inf as coordinate components, scale factors (also scale 0 under an infinite coordinate, an infinite scale on an "
+        "axis of size 0), axis maxima and axis minima (the minimum is irrelevant), and as oracle-only time points; "
         "non-trivial = the call reaches its main loop with a non-empty list (or any has_valid_seg_id / axes_match_seg_dims call); "
         "distinct by structural input")
 EXHAUSTIVE_BLOCKS = [
@@ -35,10 +37,16 @@ EXHAUSTIVE_BLOCKS = [
     "over {time,space} and metadata None/without axes; all unequal-length list pairs of length<=2; 5 shapes with an empty axis x 8 time-point lists x 3 label lists x time axis first/last",
     "has_seg_ids_at_coords: shape (2,1,2), distinct labels, all single coordinates over {-1,-0.5,0,0.5,1,1.5,2}^3 x 5 scale vectors "
     "x {right label, wrong label}; all coordinates of 0..5 values over {0,1}",
+    "non-finite, graph_is_in_seg_bounds: shapes (1,2,3) and (0,2,3) x all axis-max triples over {0,1,6,nan,inf,-inf} x 7 scale vectors "
+    "holding nan / inf / -inf / 0 with inf; axis minimum nan / -inf under every maximum",
+    "non-finite, has_seg_ids_at_coords: shape (2,1,2), all single coordinates over {-1,0,0.5,1,nan,inf,-inf}^3 x 7 scale vectors "
+    "(None, ones, nan, inf, 0, -inf with 0, dyadic); a non-finite coordinate in second position; non-finite time points (oracle-only)",
 ]
 ASSUMPTIONS = [
-    "numbers are finite and exactly representable: coordinates, scales and axis maxima are multiples of 1/1024 (NaN/inf excluded); "
+    "finite coordinates, scales and axis maxima are exactly representable multiples of 1/1024 (NaN, +inf and -inf are generated and "
+    "modelled as tokens with IEEE multiplication and comparisons); "
     "products |c*s| >= 2^53 may round in float arithmetic but are out of range for every volume either way",
+    "time points are integers in the model; NaN / infinite time points are oracle-only cases",
     "label volumes are integer arrays; np.take / np.unique / integer indexing are modelled by their meaning (hyperplane, set of values, "
     "element), incl. numpy's negative-index wrap-around which the repaired code must not reach",
     "numpy raises OverflowError instead of IndexError for indices beyond a C long; both are caught by the same handlers and the model "
@@ -49,6 +57,32 @@ ASSUMPTIONS = [
 INT_DTYPES = ["int8", "int16", "int32", "int64", "uint8", "uint16", "uint32", "uint64"]
 SEGID_DTYPES = INT_DTYPES + ["float16", "float32", "float64", "bool", "U3", "S2", "O", "complex64"]
 BIG = [2**31 - 1, 2**31, 2**32, 2**53 - 1, 2**53, 2**53 + 1, 2**63 - 1, 2**63, 2**63 + 1, 2**64 - 1, 2**64]
+# non-finite numbers travel through cases as these strings (JSON has no NaN); pyval turns them into floats for the call
+NONFINITE = ["nan", "inf", "-inf"]
+
+
+def is_tok(x):
+    return isinstance(x, str)
+
+
+def pyval(x):
+    return float(x) if isinstance(x, str) else x
+
+
+def pyvals(l):
+    return [pyval(x) for x in l]
+
+
+def has_tok(c):
+    """Does the case hold a NaN / infinite number anywhere?"""
+    def walk(x):
+        if isinstance(x, str):
+            return x in NONFINITE
+        if isinstance(x, (list, tuple)):
+            return any(walk(y) for y in x)
+        return False
+    return any(walk(c.get(k)) for k in ("scale", "coords", "tps")) or (
+        isinstance(c.get("axes"), list) and any(walk(a[1:]) for a in c["axes"]))
 
 
 # ---------------------------------------------------------------- generation
@@ -106,6 +140,17 @@ def gen_bounds(rng, tier):
                     axes = None if n is None else mk_axes([None] * n, [mx] * n)
                     sc = None if sl is None else [1.0] * sl
                     yield {"kind": "bounds", "axes": axes, "shape": shape, "scale": sc}
+    # NaN / +inf / -inf as axis maximum, scale factor (inf * 0 = NaN on the empty axis) and axis minimum
+    NF = [0, 1, 6] + NONFINITE
+    nf_scales = [None, [1, 1, 1], ["nan", 1, 1], [1, "inf", 1], [1, 1, "-inf"], ["inf", "inf", "inf"], [0, "inf", 2.0]]
+    for shape in ([1, 2, 3], [0, 2, 3]):
+        for maxes in itertools.product(NF, repeat=3):
+            for sc in nf_scales:
+                yield {"kind": "bounds", "axes": mk_axes(["time", "space", "space"], list(maxes)), "shape": shape, "scale": sc}
+    for m in [0, 0.5, 1, 6] + NONFINITE:
+        for mn in ("nan", "-inf"):
+            for sc in (None, [1, 1, 1], [1, "nan", 1]):
+                yield {"kind": "bounds", "axes": [["time", 0, mn], ["space", m, mn], [None, 1]], "shape": [1, 2, 3], "scale": sc}
     for _ in range(1500 if tier == "quick" else 12000):
         rank = rng.choice([3, 3, 3, 4, 4, 4, 1, 2, 5])
         shape = [rng.choice([1, 2, 3, 3, 0, 5]) for _ in range(rank)]
@@ -116,12 +161,20 @@ def gen_bounds(rng, tier):
             sl = rank if r < 0.9 else rng.choice([rank - 1, rank + 1])
             sc = [rng.choice([1, 1.0, 2.0, 0.5, 0.25, 1.5, 3, 0, 0.0, -1.0, -0.5]) if rng.random() < 0.8 else rng.choice([1, 2.0])
                   for _ in range(max(0, sl))]
+            if rng.random() < 0.12:
+                for _ in range(rng.choice([1, 1, 2])):
+                    if sc:
+                        sc[rng.randrange(len(sc))] = rng.choice(NONFINITE)
         n = rank if rng.random() < 0.85 else rng.choice([0, rank - 1, rank + 1, rank + 2])
         n = max(0, n)
         maxes = []
         for i in range(n):
-            ext = Fraction(shape[i] if i < rank else 1) * Fraction(sc[i] if sc is not None and i < len(sc) else 1)
+            si = sc[i] if sc is not None and i < len(sc) else 1
+            ext = Fraction(shape[i] if i < rank else 1) * Fraction(1 if is_tok(si) else si)
             q = rng.random()
+            if rng.random() < 0.07:
+                maxes.append(rng.choice(NONFINITE))
+                continue
             if q < 0.08:
                 m = None
             elif q < 0.2:
@@ -142,6 +195,10 @@ def gen_bounds(rng, tier):
                 m = int(m) if Fraction(m).denominator == 1 and rng.random() < 0.5 else (float(m) if abs(m) < 2**52 else int(m))
             maxes.append(m)
         axes = None if rng.random() < 0.03 else mk_axes([rng.choice(["time", "space", None]) for _ in range(n)], maxes)
+        if axes is not None and rng.random() < 0.08:
+            for a in axes:
+                if a[1] is not None and rng.random() < 0.5:
+                    a.append(rng.choice(["nan", "-inf"]))  # explicit axis minimum (not examined by the function)
         yield {"kind": "bounds", "axes": axes, "shape": shape, "scale": sc}
 
 
@@ -172,6 +229,12 @@ def gen_time_points(rng, tier):
             for tps in ([], [0], [1], [2], [3], [-1], [1, 2], [2, 0]):
                 for ids in ([], [0], [0, 0]):
                     yield {"kind": "tp", **vol_case(shape, []), "tps": tps, "ids": ids, "md": md}
+    # NaN / infinite time points (outside the model: oracle-only) -- not a frame of the volume
+    for tok in NONFINITE:
+        for md in ("none", mk_axes(["space", "space", "time"])):
+            yield {"kind": "tp", **vol_case([2, 1, 2], [1, 2, 3, 4]), "tps": [tok], "ids": [1], "md": md}
+            yield {"kind": "tp", **vol_case([2, 1, 2], [1, 2, 3, 4]), "tps": [0, tok], "ids": [1, 1], "md": md}
+            yield {"kind": "tp", **vol_case([2, 1, 2], [1, 2, 3, 4]), "tps": [tok, 5], "ids": [], "md": md}
     # where the time axis is looked up
     for md in ["none", "noaxes", []] + [mk_axes(ts) for ts in ALL_TYPE_LISTS] + [mk_axes(["space", None, "time"]), mk_axes(["channel", "time", None])]:
         for shape, data in (([2, 2, 3], [1, 2, 3, 4, 5, 6, 7, 8, 9, 10, 11, 12]), ([2, 3, 2, 2], list(range(1, 25)))):
@@ -258,6 +321,21 @@ def gen_coords(rng, tier):
             right = data[px[0] * 2 + px[2]] if px is not None else 0
             for l in (right, 9):
                 yield {"kind": "coords", **vol_case(shape, data), "coords": [list(coord)], "ids": [l], "scale": sc}
+    # NaN / +inf / -inf coordinate components and scale factors (inf * 0 and 0 * inf are NaN)
+    NFC = [-1, 0, 0.5, 1] + NONFINITE
+    nf_scales = [None, [1, 1, 1], ["nan", 1, 1], [1, "inf", 1], [0, 1, 1], ["-inf", 0.5, 0], [2.0, 1.0, 0.5]]
+    for coord in itertools.product(NFC, repeat=3):
+        for sc in nf_scales:
+            px = pixel_of(shape, coord, sc if sc is not None else [1, 1, 1])
+            for l in ((data[px[0] * 2 + px[2]], 9) if px is not None else (1,)):
+                yield {"kind": "coords", **vol_case(shape, data), "coords": [list(coord)], "ids": [l], "scale": sc}
+    for tok in NONFINITE:
+        for pos in range(3):
+            bad = [0, 0, 0]
+            bad[pos] = tok
+            for first, l in (([0, 0, 0], 1), ([1, 0, 1], 4), ([1, 0, 1], 9), ([2, 0, 0], 1)):
+                yield {"kind": "coords", **vol_case(shape, data), "coords": [first, bad], "ids": [l, 1], "scale": None}
+                yield {"kind": "coords", **vol_case(shape, data), "coords": [first, bad, [0, 0]], "ids": [l, 1, 1], "scale": [1, 1, 1]}
     # coordinates with the wrong number of values
     for n in range(0, 6):
         for coord in itertools.product([0, 1], repeat=n):
@@ -280,13 +358,15 @@ def gen_coords(rng, tier):
             sl = rank if r < 0.95 else max(0, rank + rng.choice([-1, 1]))
             sc = [rng.choice([1, 1.0, 1.0, 2.0, 0.5, 0.25, 1.5, 3]) if rng.random() < 0.9 else rng.choice([0, 0.0, -1.0, -0.5, -1])
                   for _ in range(sl)]
+            if sc and rng.random() < 0.06:
+                sc[rng.randrange(len(sc))] = rng.choice(NONFINITE)
         eff = sc if sc is not None and len(sc) == rank else [1] * rank
         coords, ids = [], []
         for _ in range(rng.choice([0, 1, 1, 2, 3, 5])):
             coord = []
             mode = rng.random()
             for i in range(rank):
-                s = Fraction(eff[i])
+                s = Fraction(1 if is_tok(eff[i]) else eff[i])
                 n = shape[i]
                 q = rng.random()
                 if mode < 0.6 or q < 0.7:  # a pixel inside, taken back through the scale
@@ -305,6 +385,8 @@ def gen_coords(rng, tier):
                 else:
                     c = Fraction(-rng.choice(BIG))
                 coord.append(int(c) if c.denominator == 1 and (rng.random() < 0.6 or abs(c) >= 2**52) else float(c))
+            if coord and rng.random() < 0.08:
+                coord[rng.randrange(len(coord))] = rng.choice(NONFINITE)
             if rng.random() < 0.04:
                 coord = coord[:-1] if rng.random() < 0.5 else coord + [0]
             px = pixel_of(shape, coord, eff) if len(coord) == rank else None
@@ -347,16 +429,40 @@ def labels_at(shape, data, k, t):
 
 def pixel_of(shape, coord, scale):
     """The pixel holding the scaled coordinate, or None when it lies outside the volume.
-    Pixel i of an axis covers [i, i+1); arithmetic over exact rationals."""
+    Pixel i of an axis covers [i, i+1); arithmetic over exact rationals.  A NaN or infinite coordinate is
+    not a position inside the volume, and a NaN or infinite scale factor maps no coordinate to one."""
     if len(coord) != len(shape) or len(scale) != len(shape):
         return None
     px = []
     for n, c, s in zip(shape, coord, scale):
+        if is_tok(c) or is_tok(s):
+            return None
         x = Fraction(c) * Fraction(s)
         if x < 0 or x >= n:
             return None
         px.append(x.numerator // x.denominator)
     return px
+
+
+def scaled_extent(n, s):
+    """size n (an integer >= 0) times the scale factor s: an exact rational, or "nan" / "inf" / "-inf"
+    (a NaN factor gives NaN, an infinite factor gives that infinity, except that 0 times infinity is NaN)"""
+    if s == "nan":
+        return "nan"
+    if s in ("inf", "-inf"):
+        return "nan" if n == 0 else s
+    return n * Fraction(s)
+
+
+def strictly_below(m, e):
+    """m < e for rationals extended by "nan" / "inf" / "-inf": nothing is below or above NaN"""
+    if "nan" in (m, e):
+        return False
+    if m == "inf" or e == "-inf":
+        return False
+    if m == "-inf" or e == "inf":
+        return True
+    return Fraction(m) < Fraction(e)
 
 
 def time_axis_of(md):
@@ -372,11 +478,13 @@ def build_axes(axes):
     from geff_spec import Axis
 
     out = []
-    for i, (t, m) in enumerate(axes):
+    for i, a in enumerate(axes):
+        t, m = a[0], pyval(a[1])
         if m is None:
             out.append(Axis(name=f"a{i}", type=t))
         else:
-            out.append(Axis(name=f"a{i}", type=t, min=min(0, m), max=m))
+            # the minimum is not examined by the checks; min(0, nan) is 0, which the schema accepts under a NaN max
+            out.append(Axis(name=f"a{i}", type=t, min=pyval(a[2]) if len(a) > 2 else min(0, m), max=m))
     return out
 
 
@@ -416,6 +524,7 @@ MSG_PATTERNS = [
     (re.compile(r"^No axis 'max' value found"), "MNoMax"),
     (re.compile(r"^Graph axis (\d+) is out of bounds"), "MAxisOob"),
     (re.compile(r"^Time point (-?\d+) is out of bounds"), "MTimeOob"),
+    (re.compile(r"^Time point (nan|inf|-inf) is out of bounds"), "MTimeOobNonFinite"),
     (re.compile(r"^Missing seg_id (-?\d+) at time (-?\d+)$"), "MMissingLabel"),
     (re.compile(r"^Coordinate list must have the same length"), "MCoordLen"),
     (re.compile(r"^Coords (.*) do not have one value for each", re.S), "MCoordArity"),
@@ -459,9 +568,9 @@ def run_impl(c):
             r = S.axes_match_seg_dims(build_geff(c["axes"]), build_seg(c))
         elif k == "bounds":
             g = build_geff(c["axes"])
-            r = S.graph_is_in_seg_bounds(g, build_seg(c)) if c["scale"] is None else S.graph_is_in_seg_bounds(g, build_seg(c), scale=tuple(c["scale"]))
+            r = S.graph_is_in_seg_bounds(g, build_seg(c)) if c["scale"] is None else S.graph_is_in_seg_bounds(g, build_seg(c), scale=tuple(pyvals(c["scale"])))
         elif k == "tp":
-            tps, ids = c["tps"], c["ids"]
+            tps, ids = pyvals(c["tps"]), c["ids"]
             if c.get("np_lists"):
                 tps, ids = np.array(tps, dtype="int64"), np.array(ids, dtype="int64")
             if c["md"] == "none":
@@ -470,8 +579,8 @@ def run_impl(c):
                 md = build_metadata(None if c["md"] == "noaxes" else c["md"])
                 r = S.has_seg_ids_at_time_points(build_seg(c), tps, ids, metadata=md)
         elif k == "coords":
-            coords_passed = [tuple(co) for co in c["coords"]] if c.get("tuples") else [list(co) for co in c["coords"]]
-            r = S.has_seg_ids_at_coords(build_seg(c), coords_passed, c["ids"], scale=c["scale"])
+            coords_passed = [tuple(pyvals(co)) for co in c["coords"]] if c.get("tuples") else [pyvals(co) for co in c["coords"]]
+            r = S.has_seg_ids_at_coords(build_seg(c), coords_passed, c["ids"], scale=None if c["scale"] is None else pyvals(c["scale"]))
         else:
             raise HarnessError(f"unknown case kind {k}")
     except HarnessError:
@@ -493,8 +602,14 @@ def enc(x) -> int:
     return int(f)
 
 
+XTOK = {"nan": "XNaN", "inf": "XPInf", "-inf": "XNInf"}
+
+
 def cq(x):
-    return cz(enc(x))
+    """Seg.xnum: a finite multiple of 1/1024, or one of the IEEE tokens"""
+    if is_tok(x):
+        return XTOK[x]
+    return f"(XFin {cz(enc(x))})"
 
 
 def caxis(a):
@@ -536,6 +651,8 @@ def coq_case(c, o):
     elif k == "bounds":
         inp = f"IBounds {caxes(c['axes'])} {clist(c['shape'], cnat)} {copt(c['scale'], lambda s: clist(s, cq))}"
     elif k == "tp":
+        if any(is_tok(t) for t in c["tps"]):
+            return None  # NaN / infinite time point: time points are integers in Seg.v, oracle-only
         md = "None" if c["md"] == "none" else ("(Some None)" if c["md"] == "noaxes" else f"(Some {caxes(c['md'])})")
         inp = f"ITimePoints {clist(c['shape'], cnat)} {clist(c['data'], cz)} {clist(c['tps'], cz)} {clist(c['ids'], cz)} {md}"
     else:
@@ -563,10 +680,11 @@ def expected(c):
         sc = c["scale"] if c["scale"] is not None else [1] * rank
         if not c["axes"] or len(c["axes"]) != rank or len(sc) != rank:
             return False, False
-        return all(a[1] is not None and Fraction(a[1]) < n * Fraction(s) for a, n, s in zip(c["axes"], shape, sc)), False
+        # every axis has a maximum and it lies below size * scale; a NaN maximum, a NaN scale factor or 0 * inf is below nothing
+        return all(a[1] is not None and strictly_below(a[1], scaled_extent(n, s)) for a, n, s in zip(c["axes"], shape, sc)), False
     if k == "tp":
         ax = time_axis_of(c["md"])
-        inrange = [ax < rank and 0 <= t < shape[ax] for t in c["tps"]]
+        inrange = [ax < rank and not is_tok(t) and 0 <= t < shape[ax] for t in c["tps"]]  # NaN / inf is no frame
         if not all(inrange):
             return False, True
         return all(l in labels_at(shape, c["data"], ax, t) for t, l in zip(c["tps"], c["ids"])), False
@@ -620,6 +738,8 @@ def describe(c, o):
         extra += f":taxis={time_axis_of(c['md'])}:n={len(c['tps'])}"
     if k == "coords":
         extra += f":n={len(c['coords'])}:scale={'y' if c['scale'] is not None else 'n'}"
+    if has_tok(c):
+        extra += ":nonfinite"
     return f"{k}{extra}:{o[1]}:{first}"
 
 
